@@ -214,7 +214,8 @@ def run(ctx):
     ctx.assumptions += [
         'recv() returns any non-empty chunk, b"" (peer closed) or raises socket.error; select() is nondeterministic',
         'DIMSEDecoder.process may raise any Exception (pydicom reader is external)',
-        'a well-formed A-ABORT in the Evt19 cells is the wire obligation of C04 (same tree, same run discipline)',
+        'a well-formed A-ABORT in the Evt19 cells: the Evt19 row of the state table is re-generated here with C04\'s '
+        'cell obligations (wire, user, transport, timer, next state)',
         'termination is proved for the decode loops (variant) and by the absence of unguarded blocking calls; '
         'OS-level liveness of select/recv is assumed',
     ]
